@@ -42,7 +42,7 @@ def run(tape, prop, tier):
         site, starts, pages, assets, redirects = refsite.gen_site(tape, nhosts=1, npages=tape.between(3, 6, 'site.npages'), with_redirects=False)
         main = site.origins[0]
         tries = tape.choice((1, 2, 3, 5, 7, 10), 'tries')
-        max_redirect = tape.choice((20, 5, 2, 0), 'max_redirect')
+        max_redirect = tape.choice((20, 5, 2, 0, 33), 'max_redirect')
         waitretry = tape.choice((0, 1, 10), 'waitretry')
         retry_refused = tape.chance(1, 2, 'retry_connrefused')
         bad = []
